@@ -162,7 +162,10 @@ CLAIMED["C06"] = dict(
     "never joins across functions nor into an entry block; and over whole calls: insert(), delete(), the loop of "
     "_apply_modifications over the requests of a block and apply()'s loop over all blocks keep functions_by_block "
     "the mirror of functionBlocks (Lemmas/IRMirror.lean: insert_keeps_cache_in_step, delete_keeps_cache_in_step, "
-    "apply_keeps_cache_in_step), the premise (fresh patch block ids) evaluated on the recorded states." + EMOD_TIE +
+    "apply_keeps_cache_in_step), hence after apply()'s whole loop no block is listed by two functions "
+    "(no_block_is_in_two_functions_after_apply) and entries are still a subset of blocks "
+    "(entries_are_blocks_after_apply, Lemmas/IREntries.lean); the premises (fresh patch block ids, cache mirrors "
+    "table, entries are blocks) are evaluated on the recorded states." + EMOD_TIE +
     " Partial: entry promotion on deletion and which function inserted code belongs to are decided by oracle and "
     "correspondence.",
     technique=EMOD_TECH,
